@@ -170,10 +170,12 @@ static int Cluster_activeObs(const struct LocalNetwork *self, const ClusterSlice
    (N)->OD.gv_clb[0] == 0 && (N)->OD.gv_clb[(N)->OD.ncl] == (N)->gv_nall)
 /* forall j in [0, nall): */
 #define FLAT_WF(N, j)                                                                                                 \
-  ((N)->gv_apre[j] >= 0 && (N)->gv_apre[(j) + 1] == (N)->gv_apre[j] + (ACT((N)->gv_flat[j]) ? 1 : 0) &&              \
+  ((N)->gv_apre[j] >= 0 && (N)->gv_apre[j] <= (N)->pocmer_ && (N)->gv_apre[(j) + 1] == (N)->gv_apre[j] + (ACT((N)->gv_flat[j]) ? 1 : 0) &&              \
    (N)->gv_apre[(j) + 1] <= (N)->pocmer_ && (!ACT((N)->gv_flat[j]) || (N)->revised_obs_[(N)->gv_apre[j]] == (N)->gv_flat[j]))
 /* forall 0 <= a <= b <= nall: the prefix count is monotone (consequence of its definition) */
 #define APRE_MONO(N, a, b) ((N)->gv_apre[a] <= (N)->gv_apre[b])
+/* forall j in [0, nall]: */
+#define APRE_RANGE(N, j) (0 <= (N)->gv_apre[j] && (N)->gv_apre[j] <= (N)->pocmer_)
 /* forall c in [0, ncl): */
 #define CL_WF(N, c) (0 <= (N)->OD.gv_clb[c] && (N)->OD.gv_clb[c] <= (N)->OD.gv_clb[(c) + 1] && (N)->OD.gv_clb[(c) + 1] <= (N)->gv_nall)
 
@@ -271,7 +273,7 @@ int gv_j = 0;          /* ghost: flat position of the observation `i` points to 
 //@ loop LocalNetwork_vyrovnani_sigmaL_block 1
 __CPROVER_assigns(cit, ind_0, gv_c, gv_pos, gv_end, gv_j, gv_qbb_calls, gv_stddev_calls; self->pocmer_ > 0: __CPROVER_object_whole(self->sigma_L.rep))
 __CPROVER_loop_invariant(0 <= gv_c && gv_c <= self->OD.ncl && SAME(cit, self->OD.gv_clb) && OFF(cit) == ISZ * gv_c &&
-                         0 <= gv_pos && gv_pos <= self->gv_nall && gv_pos == self->OD.gv_clb[gv_c] && ind_0 == self->gv_apre[gv_pos] &&
+                         0 <= gv_pos && gv_pos <= self->gv_nall && gv_pos == self->OD.gv_clb[gv_c] && 0 <= ind_0 && ind_0 <= self->pocmer_ && ind_0 == self->gv_apre[gv_pos] &&
                          gv_qbb_calls == ind_0 &&
                          ((gv_j0_act && gv_j0 < gv_pos) ==> SIG_OK(self->sigma_L.rep[gv_slot0])))
 __CPROVER_decreases((long)self->OD.ncl - gv_c)
@@ -279,6 +281,7 @@ __CPROVER_decreases((long)self->OD.ncl - gv_c)
 GV_ANCHOR(cit, self->OD.gv_clb + gv_c);
 GV_INST(0 <= gv_c && gv_c < self->OD.ncl, CL_WF(self, gv_c));
 gv_end = self->OD.gv_clb[gv_c + 1];
+GV_INST(0 <= gv_end && gv_end <= self->gv_nall, APRE_RANGE(self, gv_end));
 if (gv_pos <= gv_j0 && gv_j0 < gv_end)   /* a cluster without active observations contains no active observation */
   GV_INST(0 <= gv_pos && gv_j0 + 1 <= gv_end && gv_end <= self->gv_nall, APRE_MONO(self, gv_pos, gv_j0) && APRE_MONO(self, gv_j0 + 1, gv_end));
 //@ tail LocalNetwork_vyrovnani_sigmaL_block 1
@@ -289,7 +292,7 @@ gv_j = gv_pos;
 //@ loop LocalNetwork_vyrovnani_sigmaL_block 2
 __CPROVER_assigns(i, n, gv_j, gv_qbb_calls, gv_stddev_calls; self->pocmer_ > 0: __CPROVER_object_whole(self->sigma_L.rep))
 __CPROVER_loop_invariant(gv_pos <= gv_j && gv_j <= gv_end && SAME(i, self->gv_flat) && OFF(i) == ISZ * gv_j &&
-                         n == self->gv_apre[gv_j] + 1 && gv_qbb_calls == n - 1 &&
+                         1 <= n && n <= self->pocmer_ + 1 && n - 1 == self->gv_apre[gv_j] && gv_qbb_calls == n - 1 &&
                          ((gv_j0_act && gv_j0 < gv_j) ==> SIG_OK(self->sigma_L.rep[gv_slot0])))
 __CPROVER_decreases((long)gv_end - gv_j)
 //@ head LocalNetwork_vyrovnani_sigmaL_block 2
